@@ -140,7 +140,7 @@ def compat_u2s(u):
 
 
 class _VersionIndependentUnmarshaller:
-    def __init__(self, fp, magic_int, bytes_for_s, code_objects={}):
+    def __init__(self, fp, magic_int, bytes_for_s, code_objects=None):
         """
         Marshal versions:
             0/Historical: Until 2.4/magic int 62041
@@ -153,7 +153,8 @@ class _VersionIndependentUnmarshaller:
         """
         self.fp = fp
         self.magic_int = magic_int
-        self.code_objects = code_objects
+        # Not a shared default dictionary: it is filled in t_code().
+        self.code_objects = {} if code_objects is None else code_objects
 
         self.bytes_for_s = bytes_for_s
         version = magic_int2tuple(self.magic_int)
@@ -644,7 +645,7 @@ class _VersionIndependentUnmarshaller:
 # user interface
 
 
-def load_code(fp, magic_int, bytes_for_s=False, code_objects={}):
+def load_code(fp, magic_int, bytes_for_s=False, code_objects=None):
     if isinstance(fp, bytes):
         fp = io.BytesIO(fp)
     um_gen = _VersionIndependentUnmarshaller(
